@@ -4,7 +4,7 @@ transform (after the callee's own division of the shift by ITS output spacing), 
 mask enters as a plain element-wise product; plus the wiring of Wavefront.to_fpm_and_back / babinet."""
 import ast
 from pyexpr2lean import Gen, Untranslatable, load, get_def, find_calls
-from gen_c03 import SymExec, Tup, scalar_funcs, transform_args, emit_scalar, positional, HEADER, typed
+from gen_c03 import SymExec, Tup, scalar_funcs, transform_args, emit_scalar, positional, HEADER, typed, fact3
 
 M3 = 'Model.C03'
 PARAMS = 's0 s1 M0 M1 dx efl wavelength fpm_dx shift0 shift1'
@@ -52,46 +52,77 @@ def generate(repo):
     g.item('to_fpm_and_back', 'prysm/propagation.py:to_fpm_and_back', lambda: get_def(pr, 'to_fpm_and_back'), legs, '\n'.join(fb))
 
     def mask_product():
-        try:
-            res, fwd, back = run()
-        except Untranslatable:
-            return True      # cannot be analysed: the item above is recorded as untranslatable and the correspondence is widened
+        res, fwd, back = run()          # Untranslatable here = not recognised (emitted as true, correspondence widened)
         fn = get_def(pr, 'to_fpm_and_back')
         prods = res.get('products', [])
-        (c1,) = find_calls(fn, 'focus_fixed_sampling')
-        (c2,) = find_calls(fn, 'unfocus_fixed_sampling')
-        at_fpm = [st.targets[0].id for st in fn.body if isinstance(st, ast.Assign) and st.value is c1][0]
-        if len(prods) != 1:
-            return False
-        name, text = prods[0]
-        ok = text in (f'{at_fpm} * fpm', f'fpm * {at_fpm}')
-        # the product (and nothing else) is what travels back, and the result of the return leg is what is returned
-        back_in = ast.unparse(c2.args[0])
-        ret_ok = all(ast.unparse(r.value).split(',')[0].strip('( ') ==
-                     [st.targets[0].id for st in fn.body if isinstance(st, ast.Assign) and st.value is c2][0]
-                     for r in ast.walk(fn) if isinstance(r, ast.Return))
-        return ok and back_in == name and fwd[3] == 'wavefunction' and ret_ok
-    g.fact('fpmMaskIsPlainProduct', 'prysm/propagation.py:to_fpm_and_back', mask_product)
+        c1s, c2s = find_calls(fn, 'focus_fixed_sampling'), find_calls(fn, 'unfocus_fixed_sampling')
+        if len(c1s) != 1 or len(c2s) != 1:
+            raise Untranslatable('legs not called exactly once')
+        c1, c2 = c1s[0], c2s[0]
+        at = [st.targets[0].id for st in fn.body if isinstance(st, ast.Assign) and st.value is c1]
+        back_name = [st.targets[0].id for st in fn.body if isinstance(st, ast.Assign) and st.value is c2]
+        if len(at) != 1 or len(back_name) != 1 or not c2.args or not isinstance(c2.args[0], ast.Name):
+            raise Untranslatable('legs are not bound to names')
+        travelling = c2.args[0].id
+        # what travels back must be bound exactly once; it is right iff that binding is the plain product field * fpm
+        binds = [ast.unparse(st.value) for st in fn.body if isinstance(st, ast.Assign) and len(st.targets) == 1
+                 and isinstance(st.targets[0], ast.Name) and st.targets[0].id == travelling]
+        if len(binds) != 1:
+            raise Untranslatable('array sent back is not bound exactly once')
+        ok = binds[0] in (f'{at[0]} * fpm', f'fpm * {at[0]}')
+        rets = [ast.unparse(r.value) for r in ast.walk(fn) if isinstance(r, ast.Return) and r.value is not None]
+        ret_ok = all(r == back_name[0] or r.startswith(f'({back_name[0]},') for r in rets)
+        return ok and fwd[3] == 'wavefunction' and ret_ok
+    fact3(g, 'fpmMaskIsPlainProduct', 'prysm/propagation.py:to_fpm_and_back', lambda: get_def(pr, 'to_fpm_and_back'), mask_product)
 
     def wf_wrapper():
         fn = get_def(pr, 'Wavefront.to_fpm_and_back')
-        (c,) = find_calls(fn, 'to_fpm_and_back')
-        names, args = positional(c, get_def(pr, 'to_fpm_and_back'))
+        cs = find_calls(fn, 'to_fpm_and_back')
+        if len(cs) != 1:
+            raise Untranslatable('wrapper does not call to_fpm_and_back exactly once')
+        names, args = positional(cs[0], get_def(pr, 'to_fpm_and_back'))
         want = {'wavefunction': 'self.data', 'dx': 'self.dx', 'efl': 'efl', 'wavelength': 'self.wavelength', 'fpm': 'fpm',
                 'fpm_dx': 'fpm_dx', 'shift': 'shift', 'method': 'method'}
-        return all(ast.unparse(args[k]) == v for k, v in want.items())
-    g.fact('wavefrontFpmWrapperPassesThrough', 'prysm/propagation.py:Wavefront.to_fpm_and_back', wf_wrapper)
+        return all(args.get(k) is not None and ast.unparse(args[k]) == v for k, v in want.items())
+    fact3(g, 'wavefrontFpmWrapperPassesThrough', 'prysm/propagation.py:Wavefront.to_fpm_and_back',
+          lambda: get_def(pr, 'Wavefront.to_fpm_and_back'), wf_wrapper)
 
     def babinet():
         fn = get_def(pr, 'Wavefront.babinet')
-        src = [ast.unparse(st) for st in fn.body]
         calls = find_calls(fn, 'self.to_fpm_and_back')
-        ok_calls = bool(calls) and all(
-            {k.arg: ast.unparse(k.value) for k in c.keywords}.get('fpm') == 'fpm' and
-            {k.arg: ast.unparse(k.value) for k in c.keywords}.get('efl') == 'efl' and
-            {k.arg: ast.unparse(k.value) for k in c.keywords}.get('fpm_dx') == 'fpm_dx' for c in calls)
-        return 'fpm = 1 - fpm' in src and 'field_at_lyot = self.data - field.data' in src and ok_calls
-    g.fact('babinetIsFieldMinusReturnOfComplement', 'prysm/propagation.py:Wavefront.babinet', babinet)
+        if not calls:
+            raise Untranslatable('babinet does not call self.to_fpm_and_back')
+        ok = True
+        field_names = set()
+        for st in ast.walk(fn):
+            if isinstance(st, ast.Assign) and st.value in calls:
+                t = st.targets[0]
+                field_names.add(t.id if isinstance(t, ast.Name) else t.elts[0].id)
+        if len(field_names) != 1:
+            raise Untranslatable('result of to_fpm_and_back is not bound to one name')
+        field = field_names.pop()
+        for c in calls:
+            kw = {k.arg: k.value for k in c.keywords}
+            m = kw.get('fpm')
+            if m is None or not isinstance(m, ast.Name):
+                raise Untranslatable('mask argument is not a name')
+            # the mask handed down must have been replaced by its complement `1 - mask` beforehand
+            comps = [st for st in fn.body if isinstance(st, ast.Assign) and len(st.targets) == 1
+                     and isinstance(st.targets[0], ast.Name) and st.targets[0].id == m.id and st.lineno < c.lineno]
+            comp_ok = any(isinstance(st.value, ast.BinOp) and isinstance(st.value.op, ast.Sub)
+                          and isinstance(st.value.left, ast.Constant) and st.value.left.value == 1
+                          and ast.unparse(st.value.right) == 'fpm' for st in comps)
+            ok = ok and comp_ok and ast.unparse(kw.get('efl')) == 'efl' and ast.unparse(kw.get('fpm_dx')) == 'fpm_dx'
+        # field at the Lyot plane = incoming field minus the returned one
+        diffs = [st.value for st in fn.body if isinstance(st, ast.Assign) and isinstance(st.value, ast.BinOp)
+                 and {ast.unparse(st.value.left), ast.unparse(st.value.right)} == {'self.data', f'{field}.data'}]
+        if len(diffs) != 1:
+            raise Untranslatable('no combination of self.data with the returned field')
+        d = diffs[0]
+        ok = ok and isinstance(d.op, ast.Sub) and ast.unparse(d.left) == 'self.data'
+        return ok
+    fact3(g, 'babinetIsFieldMinusReturnOfComplement', 'prysm/propagation.py:Wavefront.babinet',
+          lambda: get_def(pr, 'Wavefront.babinet'), babinet)
 
     return g.finish()
 
